@@ -353,6 +353,9 @@ def interpret(calls, results):
                 cur_pc.clim = c[2]
         elif k == "PFIN" and cur_pc is not None:
             if ok:
+                for what, lim in (("intensity", cur_pc.ilim), ("colour", cur_pc.clim)):
+                    if lim not in ("default", "-") and "-" in lim.split("/"):
+                        out["accepted_unrepresentable"].append((i, "finalize accepted %s limits set by the caller that are incomplete (%s)" % (what, lim)))
                 pc_finalized += 1
                 if pc_finalized == 1:
                     e = Expect(cur_pc.guid, cur_pc.proto)
